@@ -461,6 +461,10 @@ class Process:
             # APIs which don't use _raise_if_pid_reused().
             msg = "process no longer exists and its PID has been reused"
             raise NoSuchProcess(self.pid, self._name, msg=msg)
+        if self._gone:
+            # The process is known to be gone, hence its PID may have
+            # been reused since: never act on whoever owns it now.
+            raise NoSuchProcess(self.pid, self._name)
 
     @property
     def pid(self):
